@@ -1,5 +1,5 @@
 """Property -> rules mapping."""
-from .rules import cfg, conv, det, errsel, fmtdec, fmtparse, hdr, hyg, idx, ops, rawid
+from .rules import cfg, conv, det, errsel, fmtdec, fmtparse, hdr, hyg, idx, ops, rawid, shape
 
 PROPS = {}
 
@@ -99,3 +99,8 @@ prop("C09", [idx.rule_idx_space, errsel.rule_view_defs, errsel.rule_error_select
 prop("C10", [ops.rule_tpl_role, ops.rule_unary, ops.rule_method_names], meta={"explanation": "wip"})
 
 prop("C08", [conv.rule_merge_symmetry, conv.rule_from_table, conv.rule_field_order], meta={"explanation": "wip"})
+
+prop("C11", [shape.rule_accessors, errsel.rule_view_defs, idx.rule_idx_space, rawid.rule_raw_id], meta={"explanation": "wip"})
+prop("C12", [shape.rule_tpl_prec, shape.rule_discriminants, hdr.rule_tpl_hdr, rawid.rule_raw_id], meta={"explanation": "wip"})
+prop("C13", [shape.rule_from_str, rawid.rule_raw_id], meta={"explanation": "wip"})
+prop("C14", [shape.rule_delegation, errsel.rule_view_defs, idx.rule_idx_space], meta={"explanation": "wip"})
